@@ -5,11 +5,9 @@ EXTENDS Chain, Json, IOUtils
 
 TreesJ == JsonDeserialize(IOEnv.TREES)
 
-\* JSON gives sequences; the spec wants sets for creates/spends
 ToSet(s) == {s[i] : i \in 1..Len(s)}
-FixEff(e) == [creates |-> ToSet(e.creates), spends |-> ToSet(e.spends), fc |-> e.fc]
-FixTree(tr) == [tr EXCEPT !.eff = [b \in 1..tr.n |-> FixEff(tr.eff[b])]]
-TreesC == [i \in 1..Len(TreesJ) |-> FixTree(TreesJ[i])]
+\* the trees are used as deserialised (a constant TLC evaluates once)
+TreesC == TreesJ
 
 SubsC == {"s1", "s2"}
 NoSubs == {}
